@@ -665,7 +665,16 @@ JOBSETS = {"keys": key_jobs, "nt": nt_jobs, "der": der_jobs, "sig": sig_jobs, "r
 
 
 def run_set(ctx, jobset, arg=None, examples=100, triples=2000, **_):
-    valid, faults = JOBSETS[jobset](arg) if arg is not None else JOBSETS[jobset]()
+    try:
+        valid, faults = JOBSETS[jobset](arg) if arg is not None else JOBSETS[jobset]()
+    except RuntimeError:
+        raise               # the harness' own self-checks
+    except Exception as e:
+        # building the job set only performs valid library operations (make keys, precompute, encode)
+        ctx.ev()
+        ctx.fail("%s:%s/job-set-construction/exception/%s" % (jobset, arg or "", exc_sig(e)),
+                 {"kind": "fault-history", "label": "%s:%s" % (jobset, arg or ""), "history": []}, repr(e)[:300])
+        return
     fault_histories(ctx, "%s:%s" % (jobset, arg or ""), valid, faults, examples=examples, triple_budget=triples)
 
 
